@@ -101,7 +101,9 @@ func scenarioC08(x *runner.X) {
 		m := methods[t.Intn(len(methods))]
 		switch t.Intn(12) {
 		case 0:
-			return hreq{"GET", []string{"/", "/health", "/metrics", "/api/v1/slot-to-cid/" + fmt.Sprint(goodSlot), "/api/v1/slot-to-cid/x", "/api/v1/sig-to-cid/" + goodSig, "/api/v1/sig-to-cid/!!", "/api/v1/", "/api/v1/slot-to-cid/18446744073709551616"}[t.Intn(9)], nil, -1, "GET"}
+			return hreq{"GET", []string{"/", "/health", "/metrics", "/api/v1/slot-to-cid/" + fmt.Sprint(goodSlot), "/api/v1/slot-to-cid/x", "/api/v1/sig-to-cid/" + goodSig, "/api/v1/sig-to-cid/!!", "/api/v1/", "/api/v1/slot-to-cid/18446744073709551616",
+				// percent-encoded bytes that are not UTF-8, in the last and in an inner path element
+				"/api/v1/%ff/5", "/api/v1/slot-to-cid%c3%28/5", "/api/v1/slot-to-cid/%ff%fe", "/%c0%af/%80/x", "/api/v1/sig-to-cid/%00"}[t.Intn(14)], nil, -1, "GET"}
 		case 1:
 			return hreq{[]string{"PUT", "DELETE", "OPTIONS", "HEAD"}[t.Intn(4)], "/", []byte(`{}`), -1, "odd verb"}
 		case 2: // params member missing
